@@ -233,3 +233,53 @@ def replay(chk, data):
     for msg in lp:
         print('listener:', msg)
     return 0 if code == 0 and not errors and not lp else 1
+
+
+# ---------------------------------------------------------------- C14 parity (asyncio vs threaded)
+def _plain_msg(m, host_ids):
+    """A published dict with the uuid host id replaced by the host index (as printed for the model)."""
+    d = dict(m)
+    d['host_id'] = host_ids.get(d.get('host_id'), 98)
+    if isinstance(d.get('args'), tuple):
+        d['args'] = list(d['args'])
+    return ('msg', sorted(d.items(), key=lambda kv: kv[0]))
+
+
+def _plain_eff(e, host_ids):
+    k = e[0]
+    if k == 'Published':
+        return ('Published', _plain_msg(e[1], host_ids))
+    if k == 'Callback':
+        return ('Callback', e[1], e[2], list(e[3]))
+    return tuple(e)
+
+
+def _plain_trace(wos, ops, mode, immediate):
+    steps, finals, d = cluster.run_cluster(wos, ops, mode, immediate)
+    ops2, steps = trim(list(ops), steps)
+    out = []
+    for o, effs, _ in steps:
+        out.append(('op', repr(o), [_plain_eff(e, d.host_ids) for e in effs]))
+    for k, f in enumerate(finals):
+        out.append(('final', k, f['rooms'], f['pending'],
+                    [(key, nxt, [(i, list(c)) for i, c in ents]) for key, nxt, ents in f['callbacks']],
+                    f['cur'], list(f['bg'])))
+    return out
+
+
+def parity_traces(rng, n):
+    """n cluster histories, each run on the PubSubManager cluster and on the AsyncPubSubManager cluster;
+    returns [(kind, scenario_repr, trace_sync, trace_async)] of plain Python values: identical behaviour
+    gives equal lists.  No chk.* calls; deterministic in rng."""
+    ks = knob_sets(False)
+    out = []
+    for i in range(n):
+        knobs = ks[i % len(ks)]
+        wos, ops, strict = cluster_hist.gen_history(rng, knobs)
+        immediate = not knobs.delayed
+        ts = _plain_trace(wos, ops, 'sync', immediate)
+        ta = _plain_trace(wos, ops, 'async', immediate)
+        rep = 'hosts=%r %s ops=%s' % (wos, 'immediate' if immediate else 'delayed',
+                                      repr([o[:3] for o in ops[:12]])[:300])
+        out.append(('pubsub-cluster', rep, ts, ta))
+    return out
